@@ -293,6 +293,9 @@ func (r *router) closeImpl(err error) {
 		r.cache.Close()
 	}
 	for _, f := range r.serverClosers {
+		if f == nil { // server that failed to start
+			continue
+		}
 		f()
 	}
 }
